@@ -5,6 +5,7 @@
    101 (own Get Endpoint ID response is rejected for its length).  Property theorems only. *)
 Require Import Base Crc Bitfield Headers Encode Decode Process Ops Spec Judge.
 Require Import Hist DecodeFacts StepsSimple StepsEncode DecodeChar ProcessChar StepsRecv.
+Require Import EncodeFacts Readable.
 Open Scope N_scope.
 
 (* (1) as the correspondence oracle states it *)
@@ -60,3 +61,76 @@ Print Assumptions C01_roundtrip_non_control.
 Print Assumptions C01_roundtrip_request.
 Print Assumptions C01_roundtrip_response.
 Print Assumptions C01_roundtrip_completion_code.
+
+(* ---------- stated directly about an encoder call followed by a decode (no oracle to read) ----------
+   c is a context of configuration g at any point of a history; the call (h, id, a, ls) succeeded with n bytes in
+   out; (mt, body) is the message it stands for; the first n bytes of out are handed to decode_packet. *)
+
+(* (6) SPDM / secured / vendor defined: the type and the whole body come back *)
+Theorem C01_encode_then_decode_non_control : forall ovf g c h id a ls w buf out n mt body,
+  wf_cfg g -> cinv g c -> args_okb h id a ls = true ->
+  encode_call ovf c h id a ls = Some w -> w buf = (out, Val (Some n)) ->
+  model_message h id a ls (c_eid_resp c) = Some (mt, body) ->
+  mt <> 0 -> supported_type mt = true ->
+  decode_packet (firstn n out) = ok (msg_type_from_u8 mt, (9%nat, (n - 10)%nat)) /\
+  sub (firstn n out) 9 (n - 10) = body.
+Proof. exact encode_then_decode_non_control. Qed.
+
+(* (7) a control request with a command the decoder knows and the data length its table expects *)
+Theorem C01_encode_then_decode_request : forall ovf g c h id a ls w buf out n code params,
+  wf_cfg g -> cinv g c -> args_okb h id a ls = true ->
+  encode_call ovf c h id a ls = Some w -> w buf = (out, Val (Some n)) ->
+  model_message h id a ls (c_eid_resp c) = Some (0, [128; code] ++ params) ->
+  code < 9 -> len_ok (model_req_len code) (length params) = true ->
+  decode_packet (firstn n out) = ok (MCtpControl, (11%nat, (n - 12)%nat)) /\
+  sub (firstn n out) 11 (n - 12) = params.
+Proof. exact encode_then_decode_request. Qed.
+
+(* (8) a Success control response *)
+Theorem C01_encode_then_decode_response : forall ovf g c h id a ls w buf out n code fields,
+  wf_cfg g -> cinv g c -> args_okb h id a ls = true ->
+  encode_call ovf c h id a ls = Some w -> w buf = (out, Val (Some n)) ->
+  model_message h id a ls (c_eid_resp c) = Some (0, [0; code; 0] ++ fields) ->
+  ((code =? 7) || (10 <=? code)) = false -> len_ok (model_resp_len code) (length fields) = true ->
+  decode_packet (firstn n out) = ok (MCtpControl, (12%nat, (n - 13)%nat)) /\
+  sub (firstn n out) 12 (n - 13) = fields.
+Proof. exact encode_then_decode_response. Qed.
+
+(* (9) a control response with a non-Success completion code comes back as that error *)
+Theorem C01_encode_then_decode_completion_code : forall ovf g c h id a ls w buf out n code cc fields,
+  wf_cfg g -> cinv g c -> args_okb h id a ls = true ->
+  encode_call ovf c h id a ls = Some w -> w buf = (out, Val (Some n)) ->
+  model_message h id a ls (c_eid_resp c) = Some (0, [0; code; cc] ++ fields) ->
+  1 <= cc <= 5 ->
+  decode_packet (firstn n out) = err MCtpControl (DControlMessage (CEUnsuccessfulCompletionCode cc)).
+Proof. exact encode_then_decode_completion_code. Qed.
+
+(* (10) without side conditions: the library's own request encoders 1..8 (Set Endpoint ID .. Allocate Endpoint IDs) *)
+Theorem C01_own_requests_decode : forall ovf g c id a ls w buf out n,
+  wf_cfg g -> cinv g c -> args_okb true id a ls = true ->
+  encode_call ovf c true id a ls = Some w -> w buf = (out, Val (Some n)) ->
+  (1 <=? id) && (id <=? 8) = true ->
+  exists params, spec_request id a ls = Some (id, params) /\
+    decode_packet (firstn n out) = ok (MCtpControl, (11%nat, (n - 12)%nat)) /\
+    sub (firstn n out) 11 (n - 12) = params.
+Proof. exact own_requests_decode. Qed.
+
+(* (11) ... and its own response encoders (a[0] is the completion code supplied; Get Endpoint ID's Success response
+   is known finding 101) *)
+Theorem C01_own_responses_decode : forall ovf g c id a ls w buf out n,
+  wf_cfg g -> cinv g c -> args_okb false id a ls = true ->
+  encode_call ovf c false id a ls = Some w -> w buf = (out, Val (Some n)) ->
+  (1 <=? id) && (id <=? 6) = true ->
+  (arg a 0 = 0 -> id <> 2 ->
+     decode_packet (firstn n out) = ok (MCtpControl, (12%nat, (n - 13)%nat)) /\
+     exists code fields, spec_response id a ls (c_eid_resp c) = Some (code, 0, fields) /\ sub (firstn n out) 12 (n - 13) = fields) /\
+  (arg a 0 <> 0 ->
+     decode_packet (firstn n out) = err MCtpControl (DControlMessage (CEUnsuccessfulCompletionCode (arg a 0)))).
+Proof. exact own_responses_decode. Qed.
+
+Print Assumptions C01_encode_then_decode_non_control.
+Print Assumptions C01_encode_then_decode_request.
+Print Assumptions C01_encode_then_decode_response.
+Print Assumptions C01_encode_then_decode_completion_code.
+Print Assumptions C01_own_requests_decode.
+Print Assumptions C01_own_responses_decode.
